@@ -14,7 +14,9 @@ CLAIMS = {
              "radius_final <= radius_init when fitting the radii to the box; get_index_to_remove never selects the centre of the trust "
              "region when a new point is given (and only with distance 0 otherwise), and minimize's geometry step replaces the point chosen "
              "in the same iteration for the current best index; the completed constants satisfy the domains/orders these proofs assume "
-             "(C19.set_default_constants.post.valid counts for C18).",
+             "(C19.set_default_constants.post.valid counts for C18). In minimize, ghost state tracks whether the centre is still the "
+             "least-merit interpolation point: every replacement of a point is followed by set_best_index before the framework is used "
+             "again, unless the newcomer's merit value is known to exceed the centre's.",
         design_ref="5 C18",
         note="REAL float model (machine arithmetic treated as mathematical) for products/sqrt; constants assumed to satisfy "
              "the postcondition of _set_default_constants (proved under C19); callee = contract; termination not verified.",
@@ -120,8 +122,9 @@ CLAIMS["C01"] = dict(
          "infinite bounds allowed, get_trust_region_step and get_second_order_correction_step shift the bounds by exactly the point the "
          "returned step is added to and meet the subsolvers' preconditions, so the trial point is inside the bounds by construction.",
     design_ref="5 C01",
-    note="Interpolation.__init__ is proved for every n and npt (placement-loop invariant: every initial point inside the bounds, radii "
-         "fitted to the box). Subsolver contracts (step inside the box it is given) are assumed at the call sites; they are proved as "
+    note="Interpolation.__init__ is proved for every n and npt (REAL model, placement-loop invariant: every initial point inside the bounds, "
+         "radii fitted to the box; its base-point case analysis also in the ORDER model, where it is exhaustive in floating point, with a "
+         "bounded sweep of the thresholds). Subsolver contracts (step inside the box it is given) are assumed at the call sites; they are proved as "
          "loop invariants for constrained_tangential_byrd_omojokun (tcgbox unit, NaN-freeness excepted) and otherwise checked by the "
          "bounded subsolver units, whose step_within_bounds clauses count for C01 (a failing case is replayed natively); the geometry "
          "step is covered by the bounded units and the end-to-end monitor; REAL model for the step arithmetic.",
@@ -242,7 +245,8 @@ CLAIMS["C17"] = dict(
          "unlimited limits, lower block before upper block per object, reported sizes equal returned sizes; BoundConstraints.__init__ "
          "neutralises NaN bounds; the violation contract gives max(0, rows). Linear constraints: bounded stand-in only.",
     design_ref="5 C17",
-    note="get_arrays_tol is a contract stub (non-negative tolerance); LinearConstraints.__init__ is only covered by the bounded "
+    note="get_arrays_tol is a contract stub in that unit and proved by its own (defined and positive for arbitrary contents, NaN/inf "
+         "included; overflow not excluded); LinearConstraints.__init__ is only covered by the bounded "
          "Problem.__init__ stand-in (internal residuals vs the user's constraints on random statements).",
     technique="deductive: guarded vectors (masks compose on the base index), ORDER model, z3",
 )
